@@ -256,6 +256,18 @@ func c06Judge(s *verifh.Session, runs []*c06Run) {
 	var lines2 []string
 	var pends []pend
 	for i, r := range runs {
+		if ans[2*i] != strings.Join(r.transcript, ";") {
+			// a connection error (not an idle close) in the last operation: the read loop writes
+			// GOAWAY unflushed, aborts every open stream and closes the socket; each aborted stream's
+			// goroutine then races to write its RST_STREAM (whose flush carries the GOAWAY out) against
+			// that close. Which of them reach the peer is the scheduler's choice and all of it is
+			// legal: GOAWAY and RST_STREAMs the model does not have are dropped from that operation
+			// (before anything is compared or classified).
+			if canon, ok := c06DropTeardownFrames(r.transcript, strings.Split(ans[2*i], ";")); ok {
+				s.Count("teardown-frames")
+				r.transcript = strings.Split(canon, ";")
+			}
+		}
 		if ans[2*i] == strings.Join(r.transcript, ";") {
 			continue
 		}
@@ -282,17 +294,6 @@ func c06Judge(s *verifh.Session, runs []*c06Run) {
 	}
 	for i, r := range runs {
 		impl := strings.Join(r.transcript, ";")
-		if impl != ans[2*i] {
-			// a connection error (not an idle close) in the last operation: the read loop writes
-			// GOAWAY unflushed, aborts every open stream and closes the socket; each aborted stream's
-			// goroutine then races to write its RST_STREAM (whose flush carries the GOAWAY out) against
-			// that close. Which of them reach the peer is the scheduler's choice and all of it is
-			// legal: GOAWAY and RST_STREAMs the model does not have are dropped from that operation.
-			if canon, ok := c06DropTeardownFrames(r.transcript, strings.Split(ans[2*i], ";")); ok {
-				s.Count("teardown-frames")
-				impl = canon
-			}
-		}
 		if impl != ans[2*i] && c06TruncatedAtClose(strings.Split(impl, ";"), strings.Split(ans[2*i], ";")) {
 			// safety net (expected count 0 since the lane waits for the frames of a normally
 			// finished stream before its barrier PING): the client closed the connection (idle
@@ -331,6 +332,24 @@ func c06Judge(s *verifh.Session, runs []*c06Run) {
 			// that raised the stream limit and nothing else (any other lost wake-up is not this finding)
 			class = c06Classes[8]
 			s.Count("known-defect:" + class)
+		}
+		if class == "" && impl != ans[2*i] {
+			// diagnostics for an unclassified disagreement: how close each repair vector came
+			best, bestAt := "", -1
+			for _, p := range pends {
+				if p.run != i {
+					continue
+				}
+				a, b := strings.Split(ans2[p.line], ";"), r.transcript
+				at := 0
+				for at < len(a) && at < len(b) && a[at] == b[at] {
+					at++
+				}
+				if at > bestAt {
+					best, bestAt = p.fix, at
+				}
+			}
+			r.human += fmt.Sprintf(" [closest repair vector %s agrees on the first %d of %d operations]", best, bestAt, len(r.transcript))
 		}
 		if r.noForcedWake {
 			s.Count("no-forced-wake")
